@@ -552,11 +552,24 @@ def exec_for_invariant(engine, ctx, st: ast.For, env: Env, it, inv):
     for lab, c in inv_clauses(lo):
         ctx.oblige("%s/inv-init#%s" % (label, lab), lift_bool(c), kind="inv-init")
     # havoc
-    kinds = getattr(inv, "kinds", None) or {}
+    kinds = dict(getattr(inv, "kinds", None) or {})
+    kinds_by_value = getattr(inv, "kinds_by_value", None)
+    if kinds_by_value is not None:
+        # kinds of in-place mutated collections chosen by what the variable holds, not by what the code calls it
+        for n_, v_ in list(env.vars.items()):
+            k_ = kinds_by_value(n_, v_) if n_ not in kinds else None
+            if k_ is not None:
+                kinds[n_] = k_
     # collections that the body mutates in place (x.add(...)) are loop-carried too: the invariant declares their kind
     modified = modified + [n for n in kinds if n in env.vars and n not in modified]
     for n in modified:
-        if n in kinds:
+        if n in kinds and getattr(inv, "in_place", False) and isinstance(env.vars[n], (SymSet, V.SymMap)) \
+                and not (isinstance(env.vars[n], SymSet) and env.vars[n].elem_sort != kinds[n].sort().domain()):
+            # collections that may be aliased (parameters): havocked in place so that every alias sees the new contents
+            from . import ext_reader
+
+            ext_reader.havoc_in_place(ctx, env.vars[n], n)
+        elif n in kinds:
             old_v = env.vars[n]
             env.vars[n] = ctx.fresh_kind(n, kinds[n])  # kind of a loop-carried variable declared by the invariant
             if hasattr(env.vars[n], "fresh"):
@@ -588,6 +601,10 @@ def exec_for_invariant(engine, ctx, st: ast.For, env: Env, it, inv):
             env.vars[vn] = V.Opaque("container built in a loop over a symbolic domain")
     if has_yield:
         ctx.ysym.havoc()
+    if getattr(inv, "havoc_ghost_heap", False):
+        from . import ext_reader
+
+        ext_reader.heap_havoc(ctx, grows=False)  # what the invariant says about the ghost heap is all that is known
     i = ctx.fresh("iter", z3.IntSort())
     ctx.assume(i >= lo)
     which = ctx.choose(2)
